@@ -1,5 +1,6 @@
 import Chrono.Drv.Util
 import Chrono.Model.ParseFrom
+import Chrono.Spec.UnambiguousSpec
 /-!
   Driver ops of C13 (prefix `pf.`); `<T>` = `date` | `time` | `naive` | `zoned`,
   value tokens: date `<yof>`, time `<secs> <frac>`, naive `<yof> <secs> <frac>`,
@@ -9,6 +10,10 @@ import Chrono.Model.ParseFrom
   * `pf.f <T> x<fmt> <value>`  → `value.format(fmt)`: `x<text>` | `err` | `panic`
   * `pf.rt <T> x<fmt> <value>` → the round trip: `x<text> <parse result>` | `err` | `panic`
   * `pf.spec <Numeric>`        → the parser's table row: `<width|max> <signed 0|1>`
+  * `pf.sp <T> x<fmt> <value> | <observed round-trip result…>` → validation of the *specification*
+      against the implementation: `agree` if `Spec.Unambiguous`/`Spec.expressible` make no prediction
+      for this format and value, or if the prediction `ok (truncate_to_precision …)` is what the
+      implementation returned; `MISMATCH <prediction>` otherwise.  `pf.spq …` → `pred` | `nopred`.
 -/
 namespace Chrono.Drv.ParseFrom
 open Chrono Chrono.M Chrono.Drv Chrono.M.ParseFrom
@@ -64,6 +69,29 @@ def handle (op : String) (args : List String) : Option String :=
               | .ok (some text) => s!"{hexEncode text} {showRP showValue (parse_from_str t text f)}"
               | w => showW w)
           | none => bad)
+      | _, _ => bad)
+  | "pf.sp", t :: f :: rest => some (match target? t, hexDecode f with
+      | some t, some f =>
+        let vtoks := rest.takeWhile (· != "|")
+        let got := joinSp (rest.dropWhile (· != "|") |>.drop 1)
+        (match value? t vtoks with
+         | some v =>
+           let is := Strftime.items f
+           if Spec.Unambiguous is t ∧ Spec.expressible is v then
+             match Spec.truncate_to_precision is v with
+             | some v' => if s!"ok {showValue v'}" == got then "agree" else s!"MISMATCH ok {showValue v'}"
+             | none => "agree"
+           else "agree"
+         | none => bad)
+      | _, _ => bad)
+  | "pf.spq", t :: f :: v => some (match target? t, hexDecode f with
+      | some t, some f =>
+        (match value? t v with
+         | some v =>
+           let is := Strftime.items f
+           if Spec.Unambiguous is t ∧ Spec.expressible is v ∧ (Spec.truncate_to_precision is v).isSome
+           then "pred" else "nopred"
+         | none => bad)
       | _, _ => bad)
   | "pf.spec", [n] => some (match Numeric.ofName n with
       | some n =>
